@@ -81,7 +81,8 @@ theorem cstep_semRel {capped : Bool} {c c' : Conn} (h : cstep capped c .semRel =
   · cases h
 
 theorem cstep_op {capped : Bool} {c c' : Conn} {evs : List Ev} (h : cstep capped c (.op evs) = some c') :
-    ∃ o r ss', c.script = o :: r ∧ opStep c.sess o = some (evs, ss') ∧ (evs = [] ∨ c.phase = .serving) ∧
+    ∃ o r ss', c.script = o :: r ∧ opStep c.sess o = some (evs, ss') ∧
+      (evs = [] ∨ c.phase = .serving ∨ (o.isCrash = true ∧ c.phase.started = true)) ∧
       c' = { c with script := r, sess := ss', obs := c.obs ++ [evs] } := by
   simp only [cstep] at h
   split at h
@@ -279,14 +280,18 @@ theorem C41_max (n : Nat) (prog : Tid → List Op) {s : St} (h : (ts (some n) pr
   rw [hs]; rfl
 
 /-- what a connection observes needs a server: a non-empty observation is only ever recorded while the connection is
-in `serving` (after the semaphore, before `transport.close()`) -/
+in `serving` (after the semaphore, before `transport.close()`) — or, for the transport failure that ends a connection
+whose handler crashed, once the handler has at least begun to serve -/
 theorem C41_served_while_serving (cap : Option Nat) (prog : Tid → List Op) {s s' : St} {i : Tid} {evs : List Ev}
-    (hst : (ts cap prog).step s (i, .op evs) = some s') (hne : evs ≠ []) : (s.comp i).phase = .serving := by
+    (hst : (ts cap prog).step s (i, .op evs) = some s') (hne : evs ≠ []) :
+    (s.comp i).phase = .serving ∨
+    ((s.comp i).phase.started = true ∧ ∃ o r, (s.comp i).script = o :: r ∧ o.isCrash = true) := by
   have : cstep cap.isSome (s.comp i) (.op evs) = some (s'.comp i) := (prod cap.isSome).step_comp_self hst
-  obtain ⟨_, _, _, _, _, hph, _⟩ := Aux.cstep_op this
-  rcases hph with h | h
+  obtain ⟨o, r, _, hs, _, hph, _⟩ := Aux.cstep_op this
+  rcases hph with h | h | ⟨h1, h2⟩
   · exact absurd h hne
-  · exact h
+  · exact Or.inl h
+  · exact Or.inr ⟨h2, o, r, hs, h1⟩
 
 /-- steps of two different connections commute as long as at most one of them is a semaphore operation
 (instance of the generic commutation lemma of products) -/
